@@ -34,13 +34,19 @@ ASSUMPTIONS = [
 RULE = ("cases = configuration x fault table. Configurations: a structured product over fcgi, redirect_stderr, minfds "
         "(0..9, occasionally 1024), uid (None / same as current / other with current uid 0 / other as non-root), directory, "
         "umask, serverurl on config / options / empty, group, environment (overrides of SUPERVISOR_* and of os.environ keys, "
-        "non-ASCII values), argv (also empty). Fault tables: none; every single call index x every exception class "
+        "non-ASCII values), argv (also empty); whole files (file_cases): 2-5 program / eventlistener / fcgi-program sections of ONE configuration file with "
+        "different environment= (none, a key of its own, a key every program sets differently, a key of the [supervisord] environment, SUPERVISOR_* and "
+        "os.environ keys, %(program_name)s / %(process_num)d values), with and without a [supervisord] environment, file order and processing order "
+        "(priorities) varied (2 and 3 programs: small-scope exhaustive), parsed by the real ServerOptions, every resulting process configuration spawned "
+        "through the real _spawn_as_child and its execve environment compared with what the file promises THAT program. Fault tables: none; every single call index x every exception class "
         "(exhaustive); sampled pairs (thorough: all pairs for small configurations). A case is non-trivial when at least "
         "one optional step (uid, directory, umask, fcgi, fault) is present; distinct = distinct (config, faults)")
 TECHNIQUE = ("Lean 4 theorems over a script model of _spawn_as_child whose conditions, constants, message texts and "
              "exception guards are regenerated from process.py/options.py; differential correspondence against the real "
              "methods under a recording os/pwd/grp proxy with exhaustive single-fault injection")
-LEVEL_TEXT = ("exec_preconditions, no_exec_after_failure, never_returns, the environment composition and "
+LEVEL_TEXT = ("exec_preconditions, no_exec_after_failure, never_returns, the environment composition (env_composition; configured_env_independent / "
+              "exec_env_of_program: the configured environment of a program is the [supervisord] environment overlaid with its own section's, for any "
+              "number and order of other programs, over the extracted per-process copy in read_config) and "
               "failure_message_and_127 (every errno at setgroups/setgid/setuid/chdir, KeyError at the password lookup, every "
               "exception at umask/execve) are proved for every configuration and every fault oracle (no bound on minfds, "
               "environment size or number of faults)")
@@ -228,11 +234,19 @@ def run_impl(c, faults):
     if c['fcgi']:
         config = FastCGIProcessConfig(options, **kw)
         proc = sp.FastCGISubprocess(config)
-        proc.fcgi_sock = FakeSock(rec, c['sock'])
     else:
         config = ProcessConfig(options, **kw)
         proc = sp.Subprocess(config)
     proc.group = None if c['group'] is None else _Group(c['group'])
+    return spawn_proc(proc, c, rec)
+
+
+def spawn_proc(proc, c, rec):
+    """the real _spawn_as_child of an existing process object under the recording proxies"""
+    import supervisor.options as so
+    import supervisor.process as sp
+    if c['fcgi']:
+        proc.fcgi_sock = FakeSock(rec, c['sock'])
     proc.pipes = {'child_stdin': c['pin'], 'child_stdout': c['pout'],
                   'child_stderr': None if c['redirect'] else c['perr'],
                   'stdin': 100, 'stdout': 101, 'stderr': None if c['redirect'] else 102}
@@ -309,9 +323,9 @@ def swallowed(ev):
     return ev[0] == 'close' and ev[2] is not None and ev[2][0] == 'O'
 
 
-def monitor(ctx, c, faults, rec, escaped):
+def monitor(ctx, c, faults, rec, escaped, inp=None):
     log = rec.log
-    inp = {'config': c, 'faults': {str(k): list(v) for k, v in faults.items()}}
+    inp = inp or {'config': c, 'faults': {str(k): list(v) for k, v in faults.items()}}
     def bad(kind, what):
         ctx.violation(kind, what + ' | log: ' + impl_line(rec)[:600], inp)
     names = [e[0] for e in log]
@@ -612,6 +626,179 @@ def merge_cases(ctx):
     ctx.correspond('child-merge', cases, impls)
 
 
+# ---------------------------------------------------------------------------------------------
+# whole files: several programs of one configuration file, each spawned with the environment configured for IT
+KIND_HEAD = {'program': 'program:', 'eventlistener': 'eventlistener:', 'fcgi': 'fcgi-program:'}
+
+
+def fc_text(fc):
+    def fmt(pairs):
+        return ','.join('%s="%s"' % kv for kv in pairs)
+    blocks = []
+    sup = '[supervisord]\n' + ('environment=%s\n' % fmt(fc['supenv']) if fc['supenv'] else '')
+    for sec in fc['sections']:
+        b = '[%s%s]\ncommand=/bin/prog-%s\n' % (KIND_HEAD[sec['kind']], sec['name'], sec['name'])
+        if sec['numprocs'] > 1:
+            b += 'numprocs=%d\nprocess_name=%%(program_name)s_%%(process_num)d\n' % sec['numprocs']
+        if sec.get('priority') is not None:
+            b += 'priority=%d\n' % sec['priority']
+        if sec['env'] is not None:
+            b += 'environment=%s\n' % fmt(sec['env'])
+        if sec['kind'] == 'eventlistener':
+            b += 'events=TICK_5\n'
+        if sec['kind'] == 'fcgi':
+            b += 'socket=tcp://localhost:9%03d\n' % (len(sec['name']) + 10)
+        blocks.append(b)
+    if fc.get('group'):
+        blocks.append('[group:%s]\nprograms=%s\n' % (fc['group']['name'], ','.join(fc['group']['programs'])))
+    pos = fc.get('sup_pos', 0) % (len(blocks) + 1)
+    blocks.insert(pos, sup)
+    return '\n'.join(blocks)
+
+
+def fc_promised(fc):
+    """{(group name, process name): (own environment, promised configured environment = [supervisord]'s overlaid by its own)}"""
+    out = {}
+    grouped = set(fc['group']['programs']) if fc.get('group') else set()
+    for sec in fc['sections']:
+        g = fc['group']['name'] if sec['name'] in grouped else sec['name']
+        for num in range(sec['numprocs']):
+            d = {'program_name': sec['name'], 'process_num': num, 'group_name': g}
+            pname = sec['name'] if sec['numprocs'] == 1 else '%s_%d' % (sec['name'], num)
+            own = dict((k, v % d) for k, v in (sec['env'] or []))
+            env = dict(fc['supenv'] or [])
+            env.update(own)
+            out[(g, pname)] = (own, env, sec)
+    return out
+
+
+def file_case(ctx, fc, cases, impls, mcases, mimpls):
+    from supervisor.options import ServerOptions
+    from supervisor.tests.base import DummyLogger
+    import io
+    text = fc_text(fc)
+    o = ServerOptions()
+    o.logger = DummyLogger()
+    o.configfile = io.StringIO(text)
+    o.realize(args=[])
+    promised = fc_promised(fc)
+    order, parsed = [], []
+    seen = set()
+    for g in o.process_group_configs:
+        for pc in g.process_configs:
+            key = (g.name, pc.name)
+            inp = {'file_case': fc, 'program': list(key)}
+            if key not in promised:
+                ctx.violation('file-yields-unconfigured-process', 'process %r of group %r is not configured by the file' % (pc.name, g.name), inp)
+                continue
+            seen.add(key)
+            own, env, sec = promised[key]
+            order.append(own); parsed.append(dict(pc.environment))
+            c = base_cfg()
+            c.update(fcgi=1 if sec['kind'] == 'fcgi' else 0, name=pc.name, group=g.name, env=env, osenv=dict(fc['osenv']),
+                     osurl=fc['osurl'], surl=None, file='/bin/prog-' + sec['name'], argv=['/bin/prog-' + sec['name']])
+            o.minfds, o.serverurl = c['minfds'], c['osurl']
+            proc = pc.make_process(_Group(g.name))
+            rec = Recorder({})
+            rec, escaped = spawn_proc(proc, c, rec)
+            monitor(ctx, c, {}, rec, escaped, inp)
+            ctx.count('file-case:spawn:' + sec['kind'])
+            ctx.case_done(('file', text, key), True)
+            cases.append((c, {})); impls.append(impl_line(rec))
+    missing = sorted(set(promised) - seen)
+    if missing:
+        ctx.violation('configured-process-missing', 'the file configures %r, the parsed configuration has no such process' % (missing,), {'file_case': fc})
+    ctx.count('file-case:files')
+    ctx.count('file-case:programs-with-own-environment:%d' % sum(1 for s_ in fc['sections'] if s_['env']))
+    mcases.append((case_line(base_cfg()), ['mergeall %s %s' % (env_s(dict(fc['supenv'] or [])), ' '.join(env_s(e) for e in order) or '-')]))
+    mimpls.append(['env ' + ' '.join(env_s(dict(sorted(e.items()))) for e in parsed)])
+
+
+def fc_make(progs, supenv, group=None, sup_pos=0, osenv=None, osurl='unix:///tmp/s.sock'):
+    return {'supenv': supenv, 'sections': progs, 'group': group, 'sup_pos': sup_pos, 'osenv': osenv if osenv is not None else {'PATH': '/bin', 'HOME': '/root'},
+            'osurl': osurl}
+
+
+def fc_small_scope(ctx):
+    """2 and 3 programs x own environment of each in {none, a key of its own, a key every program sets differently, a key the
+    [supervisord] environment sets} x [supervisord] environment {none, set} x file order x processing order (priorities)"""
+    names = ['alpha', 'beta', 'gamma']
+    def choices(n):
+        return [None, [('ONLY_' + n.upper(), '1')], [('SHARED', 'from_' + n)], [('SUPKEY', 'over_' + n), ('ONLY_' + n.upper(), '%(program_name)s')]]
+    import itertools
+    for nprog in (2, 3):
+        ns = names[:nprog]
+        combos = list(itertools.product(*[range(4) for _ in ns]))
+        for ci, combo in enumerate(combos):
+            if all(x == 0 for x in combo):
+                continue
+            for supenv in (None, [('SUPKEY', 'sup'), ('SHARED', 'sup')]):
+                variants = [(False, False), (True, True)] if (ctx.tier == 'quick' or nprog == 3) else [(a, b) for a in (False, True) for b in (False, True)]
+                if ctx.tier == 'quick' and nprog == 3 and ci % 4 != 1:
+                    continue
+                for rev_file, rev_prio in variants:
+                    progs = [{'kind': 'program', 'name': n, 'numprocs': 1, 'env': choices(n)[combo[i]],
+                              'priority': (900 - i) if rev_prio else None} for i, n in enumerate(ns)]
+                    if rev_file:
+                        progs.reverse()
+                    yield fc_make(progs, supenv, sup_pos=ci)
+
+
+FC_VALUES = ['1', 'x y', '/opt/bin:/bin', 'v-%(program_name)s', 'n%(process_num)d', 'caf\u00e9', '', 'a=b']
+FC_KEYS = ['A', 'B', 'PATH', 'HOME', 'SHARED', 'SUPKEY', 'SUPERVISOR_PROCESS_NAME', 'SUPERVISOR_ENABLED', 'LANG', 'K_9']
+
+
+def fc_random(rng):
+    n = rng.choice([2, 2, 3, 3, 4, 5])
+    names = rng.sample(['web', 'worker', 'db', 'cache', 'api', 'cron', 'mail', 'a', 'b', 'zz'], n)
+    progs = []
+    for nm in names:
+        kind = rng.choice(['program', 'program', 'program', 'eventlistener', 'fcgi'])
+        env = None
+        if rng.random() < 0.75:
+            keys = rng.sample(FC_KEYS, rng.randrange(1, 4))
+            env = [(k, rng.choice(FC_VALUES + ['own_' + nm])) for k in keys]
+        progs.append({'kind': kind, 'name': nm, 'numprocs': rng.choice([1, 1, 2]), 'env': env,
+                      'priority': rng.choice([None, None, 1, 5, 999, 1000])})
+    supenv = None
+    if rng.random() < 0.7:
+        supenv = [(k, rng.choice(['sup', 'sup 2', '/sbin'])) for k in rng.sample(FC_KEYS, rng.randrange(1, 4))]
+    group = None
+    plain = [p['name'] for p in progs if p['kind'] == 'program']
+    if len(plain) >= 2 and rng.random() < 0.3:
+        group = {'name': 'grp', 'programs': rng.sample(plain, 2)}
+    osenv = rng.choice([{}, {'PATH': '/bin', 'HOME': '/root'}, {'SUPERVISOR_ENABLED': '0', 'SHARED': 'os', 'A': 'os'}])
+    return fc_make(progs, supenv, group, sup_pos=rng.randrange(6), osenv=osenv, osurl=rng.choice([None, 'unix:///tmp/s.sock', 'http://h:9001']))
+
+
+FC_CORPUS = [
+    # seeded change C18-6: alpha and gamma set different environment=, beta none, [supervisord] sets two globals
+    fc_make([{'kind': 'program', 'name': 'alpha', 'numprocs': 1, 'priority': None, 'env': [('C18_ONLY_ALPHA', '1'), ('C18_SHARED', 'from_alpha')]},
+             {'kind': 'program', 'name': 'beta', 'numprocs': 1, 'priority': None, 'env': None},
+             {'kind': 'program', 'name': 'gamma', 'numprocs': 1, 'priority': None, 'env': [('C18_ONLY_GAMMA', '1'), ('C18_SHARED', 'from_gamma')]}],
+            [('C18_GLOBAL', 'g'), ('C18_SHARED', 'from_supervisord')]),
+    fc_make([{'kind': 'eventlistener', 'name': 'lst', 'numprocs': 2, 'priority': None, 'env': [('SLOT', 'n%(process_num)d')]},
+             {'kind': 'fcgi', 'name': 'fc', 'numprocs': 1, 'priority': 1, 'env': [('PATH', '/fcgi/bin')]},
+             {'kind': 'program', 'name': 'plain', 'numprocs': 1, 'priority': None, 'env': None}], [('PATH', '/sup/bin')]),
+]
+
+
+def file_cases(ctx):
+    """the configured environment of every program of a file with several programs reaches ITS child and no other"""
+    from supervisor import events
+    cases, impls, mcases, mimpls = [], [], [], []
+    todo = list(FC_CORPUS) + list(fc_small_scope(ctx))
+    for _ in range(ctx.n(40, 600)):
+        todo.append(fc_random(ctx.rng))
+    for fc in todo:
+        file_case(ctx, fc, cases, impls, mcases, mimpls)
+        if len(cases) > 3000:
+            flush(ctx, cases, impls)
+    flush(ctx, cases, impls)
+    ctx.correspond('child-merge-file', [('case child ' + c[len('case child '):], ops) for c, ops in mcases], mimpls)
+    events.clear()
+
+
 def run(ctx):
     rng = ctx.rng
     cases, impls = [], []
@@ -656,10 +843,20 @@ def run(ctx):
             flush(ctx, cases, impls)
     flush(ctx, cases, impls)
     merge_cases(ctx)
+    file_cases(ctx)
 
 
 def replay(ctx, data):
     inp = data['input']
+    if 'file_case' in inp:
+        cases, impls, mcases, mimpls = [], [], [], []
+        fc = inp['file_case']
+        fc['supenv'] = [tuple(x) for x in fc['supenv']] if fc['supenv'] else None
+        for sec in fc['sections']:
+            sec['env'] = [tuple(x) for x in sec['env']] if sec['env'] is not None else None
+        file_case(ctx, fc, cases, impls, mcases, mimpls)
+        flush(ctx, cases, impls)
+        return
     if 'config' not in inp:
         return
     c = inp['config']
